@@ -359,6 +359,17 @@ func Go(site string, f func()) {
 	s.start(g, f)
 }
 
+// GoDaemon starts a service goroutine of a library (the daily log rotation):
+// it is scheduled like every other goroutine, but it never ends, so it does
+// not count as work in progress when the scheduler decides whether a run is
+// over or a helper goroutine was leaked.
+func GoDaemon(site string, f func()) {
+	Go(site, func() {
+		markPendingTimer(true)
+		f()
+	})
+}
+
 func (s *Sim) start(g *G, f func()) {
 	ready := make(chan struct{})
 	go func() {
